@@ -327,7 +327,7 @@ def check_routes(ctx, rng, fe):
 
 
 def check_parse_response(ctx, rng):
-    for i in range(ctx.n(400, 20000)):
+    for i in range(ctx.n(400, 400000)):
         status = rng.choice([0, 200, 400, 403, 404, 500, 65535, 2**32, rng.getrandbits(16)])
         text = rng.choice(['', 'OK', 'Not found', 'Ωmega', 'x' * 300])
         fields = {}
@@ -376,7 +376,7 @@ def check_parse_response(ctx, rng):
 def run(ctx):
     ctx.rule = RULE
     rng = ctx.rng
-    n = ctx.n(800, 16000)
+    n = ctx.n(800, 300000)
     for i in range(n):
         fe = 'v2' if i % 2 == 0 else 'v1'
         k = 1 if rng.random() < 0.55 else rng.randint(2, 12)
